@@ -29,9 +29,16 @@ Q gen_num(Tape &t, int big) {
     v.canonicalize();
     return t.coin() ? v : -v;
   }
-  case 6: {   // powers of two, both directions
+  case 6: {   // powers of two, both directions; a third of the time decimal big-M style values d * 10^k
     int k = (int)t.below(120) - 60;
     Q v = qpow2(k) * Q((long)t.below(7) + 1);
+    if (t.chance(1, 3)) {
+      int e = (int)t.below(41);
+      mpz_class p10;
+      mpz_ui_pow_ui(p10.get_mpz_t(), 10, (unsigned long)e);
+      v = Q(p10) * Q((long)t.below(9) + 1);
+      if (t.chance(1, 4)) v = Q(1) / v;
+    }
     return t.coin() ? v : -v;
   }
   case 7: {   // big magnitudes 2^+-k, k up to 300
@@ -207,7 +214,7 @@ void gen_lp_family(Tape &t, const GenOpts &o, int family, GenLP &out) {
   out = GenLP();
   Model &m = out.m;
   int big = o.bigness >= 2 ? (int)t.below(3) : std::min(o.bigness, (int)t.below(2));
-  static const char *names[] = {"F-rand", "F-opt", "F-inf", "F-face", "F-unb", "F-ill", "F-cyc", "F-shape", "F-fixb"};
+  static const char *names[] = {"F-rand", "F-opt", "F-inf", "F-face", "F-unb", "F-ill", "F-cyc", "F-shape", "F-fixb", "F-dup"};
   out.family = names[family % F_NFAM];
   switch (family % F_NFAM) {
   case F_RAND: {
@@ -419,6 +426,51 @@ void gen_lp_family(Tape &t, const GenOpts &o, int family, GenLP &out) {
       m.rows.push_back(r);
     }
     out.family += which == 0 ? "/beale" : "/kuhn";
+    break;
+  }
+  case F_DUP: {
+    // Duplicated (and negated / doubled) rows and duplicated columns with unit coefficients, every bound shape;
+    // optimal by construction.  With o.minn >= 400 the LP is wide enough for the sparse crash basis, which
+    // happily puts two columns on two identical rows: the singular-basis repair path.
+    m = Model();
+    m.objsense = t.coin() ? -1 : 1;
+    bool wide = o.minn >= 400 || o.minm >= 200;
+    int n = wide ? 400 + (int)t.below(120) : 4 + (int)t.below((uint32_t)std::max(1, std::min(o.maxn, 12) - 3));
+    int mm = wide ? 16 + (int)t.below(50) : 2 + (int)t.below((uint32_t)std::max(1, std::min(o.maxm, 8) - 1));
+    for (int j = 0; j < n; j++) {
+      Col c;
+      switch (t.below(10)) {
+      case 0: case 1: case 2: case 3: c.lo = 0; c.up = PINF(); break;
+      case 4: case 5: c.lo = NINF(); c.up = Q((long)t.below(9)); break;              // upper bound only
+      case 6: case 7: c.lo = Q(-(long)t.below(4)); c.up = Q(1 + (long)t.below(6)); break;
+      case 8: c.lo = NINF(); c.up = PINF(); break;
+      default: c.lo = c.up = Q((long)t.below(7) - 3); break;
+      }
+      m.cols.push_back(c);
+    }
+    int base = std::max(1, mm / 2);
+    for (int i = 0; i < mm; i++) {
+      Row r;
+      if (i < base) {
+        int k = 2 + (int)t.below(4);
+        for (int e = 0; e < k; e++) r.a[(int)t.below((uint32_t)n)] = t.chance(1, 5) ? Q(2) : (t.coin() ? Q(1) : Q(-1));
+      } else {
+        r = m.rows[t.below((uint32_t)i)];
+        int how = (int)t.below(4);
+        if (how == 1) for (auto &kv : r.a) kv.second = -kv.second;
+        if (how == 2) for (auto &kv : r.a) kv.second *= 2;
+      }
+      m.rows.push_back(r);
+    }
+    // duplicate a few columns: wherever column a occurs, column b gets the same coefficient
+    for (int q = 0; q < 1 + mm / 4; q++) {
+      int a = (int)t.below((uint32_t)n), b = (int)t.below((uint32_t)n);
+      if (a == b) continue;
+      for (auto &r : m.rows) { auto it = r.a.find(a); r.a.erase(b); if (it != r.a.end()) r.a[b] = it->second; }
+      if (t.coin()) { m.cols[b].lo = m.cols[a].lo; m.cols[b].up = m.cols[a].up; }
+    }
+    make_optimal(t, m, 0, (int)t.below(6), out);
+    out.family += wide ? "/wide" : "/small";
     break;
   }
   case F_FIXB: {
